@@ -21,8 +21,11 @@ pub enum Allow {
     OwnAndUnknown,
     Unknown,
     OtherRp,
+    /// one descriptor of unknown credential *type* naming an id nobody has: whatever the type is
+    /// taken to mean, no credential is named
+    UnknownTypeUnknownId,
 }
-const ALLOWS: [Allow; 6] = [Allow::Absent, Allow::Empty, Allow::Own, Allow::OwnAndUnknown, Allow::Unknown, Allow::OtherRp];
+const ALLOWS: [Allow; 7] = [Allow::Absent, Allow::Empty, Allow::Own, Allow::OwnAndUnknown, Allow::Unknown, Allow::OtherRp, Allow::UnknownTypeUnknownId];
 
 #[derive(Clone, Debug, PartialEq, Serialize, Deserialize)]
 pub enum Act {
@@ -88,10 +91,16 @@ fn apply(store: &Shared<RefStore>, act: &Act) -> (Vec<(String, String)>, String)
                 Allow::OwnAndUnknown => Some(vec![unknown.clone(), own.as_ref().map(|r| r.id.clone()).unwrap_or(vec![0xEF; 16])]),
                 Allow::Unknown => Some(vec![unknown.clone()]),
                 Allow::OtherRp => Some(vec![other.as_ref().map(|r| r.id.clone()).unwrap_or(unknown.clone())]),
+                Allow::UnknownTypeUnknownId => Some(vec![unknown.clone()]),
             };
             let eligible: Vec<&Rec> = before.iter().filter(|r| r.rp == rp_eff && list.as_ref().map_or(true, |l| l.is_empty() || l.contains(&r.id))).collect();
             let ch = challenges()[*challenge as usize % challenges().len()].clone();
             let mut opts = request_options(Auth { rp_id: rp_arg.map(|s| s.to_string()), challenge: ch.clone(), allow: list.clone(), uv: uvr(*uv), extensions: None });
+            if *allow == Allow::UnknownTypeUnknownId {
+                for d in opts.public_key.allow_credentials.iter_mut().flatten() {
+                    d.ty = PublicKeyCredentialType::Unknown;
+                }
+            }
             // irrelevant members: transports hints on the descriptors (disjoint from / overlapping with
             // the authenticator's own), hints, attestation preference, timeout – decided by the
             // challenge index and mode so that both decorated and plain requests occur for every shape
@@ -255,7 +264,7 @@ pub fn run(ctx: &Ctx) -> Result<Run, String> {
     let ok = g.stats.outcomes.get("auth:ok").copied().unwrap_or(0);
     let mut run = Run::from_stats(
         "model_checking",
-        "explicit-state BFS over histories: register(rp in 2, user in 2) and authenticate(origin/RP in 4 incl. a sub-domain origin of the same RP and an RP without credentials, allow list in {absent, empty, [own], [unknown, own], [unknown], [credential of another RP]}, userVerification in {required, preferred, discouraged with and without the user verifying anyway}, client-data mode in 3) plus 10 challenges on two base assertions, from the empty and two seeded stores, on a real Client over the contract store; every assertion is verified by an independent relying party (ECDSA verify under the key derived from the stored scalar, client data, rpIdHash, flags, user handle). States are deduplicated on (RP, user handle, counter) per record in creation order; every transition is a distinct non-trivial real ceremony",
+        "explicit-state BFS over histories: register(rp in 2, user in 2) and authenticate(origin/RP in 4 incl. a sub-domain origin of the same RP and an RP without credentials, allow list in {absent, empty, [own], [unknown, own], [unknown], [credential of another RP], [unknown id with an unknown credential type]}, userVerification in {required, preferred, discouraged with and without the user verifying anyway}, client-data mode in 3) plus 10 challenges on two base assertions, from the empty and two seeded stores, on a real Client over the contract store; every assertion is verified by an independent relying party (ECDSA verify under the key derived from the stored scalar, client data, rpIdHash, flags, user handle). States are deduplicated on (RP, user handle, counter) per record in creation order; every transition is a distinct non-trivial real ceremony",
         true,
         g.stats,
     );
